@@ -20,6 +20,30 @@ CHECKS = {
         "(known_findings.json) are identified by input-only root-cause predicates; anything else is a violation.",
         "Trusts unicodedata; the precondition is read literally (name after leading underscores does not start with 'hyx_').",
         "names", "2/C33"),
+    "C18": (
+        "Hypothesis text generators (token alphabet, arbitrary Unicode, mutations of the repository's .hy files, deep nesting, cut Engine-B programs); validity-predicate oracle on the outcome type, alarm-based termination check",
+        "Tens of thousands (quick) to millions (thorough) of texts are read; any exception other than LexException/PrematureEndOfInput, or a read "
+        "that does not finish, is a violation. Deep-nesting inputs pin the recursion limit so RecursionError escaping the reader is visible.",
+        "Termination is observed through a 60 s/600 s alarm; inputs are <= 8 KB.",
+        "textgen", "2/C18"),
+    "C19": (
+        "Engine-B structured text generator with recorded open-construct intervals; every cut point enumerated per text; oracle = generator ground truth (PrematureEndOfInput iff inside an unclosed construct) + REPL command-compiler leg",
+        "Every prefix of every generated well-formed text is read; the expected outcome class comes from the generator's own record of where "
+        "constructs open and close, independent of the reader. Exhaustive over cut points per text, sampled over texts.",
+        "Trusts vf/textgen.py's interval bookkeeping; mid-token cuts at top level are not claimed (the property does not).",
+        "textgen", "2/C19"),
+    "C20": (
+        "Engine-B structured text generator; absolute oracle (models built by constructors) + metamorphic relations (separator stripping, concatenation, sugar vs long form)",
+        "Each generated text is compared node-by-node (type-, value- and attribute-exact) with the model tree the generator built independently, "
+        "then re-read without separators, in long form and concatenated with a second program.",
+        "Trusts vf/textgen.py's renderer and hy.models constructors.",
+        "textgen", "2/C20"),
+    "C21": (
+        "Engine-B structured text generator with recorded character spans; round-trip oracle (slice by reported region, re-read, compare) + containment/order invariants + equality with the written spans",
+        "For every model of every generated text the reported region is sliced out of the source and re-read; regions must equal the spans the "
+        "generator recorded when it wrote the text, nest properly and be ordered.",
+        "Models without own text (sugar heads, parts of dotted identifiers) and parts inside f-strings are checked for containment/order only.",
+        "textgen", "2/C21"),
 }
 
 NOT_YET = "check not built yet in this session (planned in DESIGN.md section 2); not claimed"
@@ -60,6 +84,8 @@ def main():
         "engines": [
             {"name": "names", "path": "vf/props/c32.py", "serves_properties": ["C32", "C33"],
              "kind_free_text": "code-point enumeration and Hypothesis name strategy"},
+            {"name": "textgen", "path": "vf/textgen.py", "serves_properties": ["C18", "C19", "C20", "C21", "C25", "C30"],
+             "kind_free_text": "Engine B: Hypothesis-drawn syntax trees rendered to Hy text with independently built expected models, spans and open-construct intervals"},
         ],
         "checks": checks,
         "notes": "All checks: ./check <ID> <quick|thorough> [--replay PATH]; VERIF_SEED honoured; exit 2 = harness error. "
